@@ -74,7 +74,9 @@ static void part1() {
 
 // ------------------------------------------------------------------------------------------------ part 2
 enum Src { ARGV, PROGFILE, ARGFILE, ENV };
-static std::string quote_word(const std::string& w) { bool need = w.empty(); for (char c : w) if (special(c)) need = true; return need ? escape(w, 1) : w; }
+// words that need quoting are written in one of the 4 escape styles of part 1 (g_quote_style is varied with the file decoration)
+static int g_quote_style = 1;
+static std::string quote_word(const std::string& w) { bool need = w.empty(); for (char c : w) if (special(c)) need = true; return need ? escape(w, w.empty() ? 1 : g_quote_style) : w; }
 static std::string join_words(const std::vector<std::string>& ws) { std::string l; for (size_t i = 0; i < ws.size(); ++i) l += (i ? " " : "") + quote_word(ws[i]); return l; }
 static void write_file(const std::string& path, const std::vector<std::vector<std::string>>& use_words, int layout, int deco) {
    std::ofstream f(path);
@@ -105,7 +107,8 @@ static void source_case(const Cfg& cfg, const std::vector<Use>& uses, const std:
    }
    Verdict v = evaluate_sources(cfg, order, counts);
    if (v.k == UNSPEC) { vf::count("skipped_unspecified"); return; }
-   // set the sources up
+   // set the sources up (escape style of quoted words: follows the decoration index, so that all 4 styles are written to files and the environment)
+   g_quote_style = (deco + layout + int(uses.size())) % 4;
    std::string pa = g_home + "/.progargs/prog.pa"; unlink(pa.c_str()); unlink(argfile_path.c_str());
    if (nest == 2 && !af_words.empty()) pf_words.push_back({"--arg-file", argfile_path});
    if (nest == 1 && !af_words.empty()) env_words.push_back({"--arg-file", argfile_path});
@@ -142,7 +145,7 @@ static void part2() {
    auto mkarg = [](char sk, const char* lk, Kind k) { Arg a; a.sk = sk; a.lk = lk; a.kind = k; return a; };
    auto use = [](int a, const char* v) { Use u; u.arg = a; if (v) { u.hasval = true; u.val = v; } return u; };
    { Cfg c; c.args = {mkarg('i', "input", INT), mkarg('s', "str", STR), mkarg('l', "list", VECINT), mkarg('v', "verbose", FLAG)};
-     setups.push_back({c, {use(0, "5"), use(0, "-6"), use(1, "x y"), use(1, "a'b\"c"), use(2, "1,2"), use(2, "3"), use(3, nullptr)}}); }
+     setups.push_back({c, {use(0, "5"), use(0, "-6"), use(1, "x y"), use(1, "a'b\"c"), use(1, "end "), use(2, "1,2"), use(2, "3"), use(3, nullptr)}}); }
    { Cfg c; Arg m = mkarg('m', "must", INT); m.mandatory = true; Check ck; ck.type = 3; ck.a = 3; ck.b = 7; m.checks = {ck}; Arg l = mkarg('l', "list", VECSTR); l.card = 2; l.cardA = 2;
      c.args = {m, l, mkarg('v', "verbose", FLAG)}; setups.push_back({c, {use(0, "3"), use(0, "7"), use(0, "6"), use(1, "a,b"), use(1, "c"), use(2, nullptr)}}); }
    { Cfg c; Arg n = mkarg('n', "numbers", VECINT); n.multival = true; n.card = 2; n.cardA = 2; c.args = {n, mkarg('v', "verbose", FLAG)};
